@@ -369,6 +369,28 @@ theorem inv_stepThr {h0 : Nat} {s : St} (h : Inv h0 s) (i : Nat) : Inv h0 (stepT
 
 /-! ### Preservation: kernel, restart, init -/
 
+theorem inv_abortThr {h0 : Nat} {s : St} (h : Inv h0 s) (i : Nat) : Inv h0 (abortThr s i) := by
+  unfold abortThr
+  cases hti : s.thr[i]? with
+  | none => exact h
+  | some t =>
+    simp only
+    cases hpc : t.pc with
+    | w2 tl =>
+      simp only
+      have hholds : Holds t.pc := by simp [Holds, hpc]
+      exact {
+        wf := h.wf, slen := h.slen, h0H := h.h0H, HT := h.HT, TH := h.TH, acc := h.acc,
+        win := h.win, cons := h.cons,
+        lock := lock_release h.lock hti hholds (by simp [Holds]),
+        thr := by
+          intro k tk hk
+          simp only [setThr, get_set_thr hti] at hk
+          by_cases hki : k = i
+          · rw [if_pos hki] at hk; cases hk; simp [PcOk]
+          · rw [if_neg hki] at hk; exact h.thr k tk hk }
+    | _ => exact h
+
 theorem inv_stepKernel {h0 : Nat} {s : St} (h : Inv h0 s) : Inv h0 (stepKernel s).1 := by
   unfold stepKernel
   split
